@@ -98,6 +98,7 @@ class Scenario:
                     if rn in relsB:
                         BVar("inB_%s_%s" % (rn, rust_repr(t)))
         A = Dr.Inputs(prog, self.D, rels, dup=self.dup, tag="A")
+        self.A, self.B = A, None   # (available to the checker even when the execution below gives up)
         solver = None
         B = None
         ex = Dr.Exec(mod_ast, prog, K=self.K, clock=("free" if kind == "timeout" else "none"))
